@@ -137,6 +137,126 @@ def work(chunk):
     return (n, out)
 
 
+TERM = {'LF': '\n', 'CR': '\r', 'CRLF': '\r\n'}
+
+
+def two_seam_doc(host, e, t1, d1, t2, d2):
+    """a document in which one terminator of kind t1 starts at offset 4096 + d1 and one of kind t2 at offset 8192 + d2;
+    every other terminator is of kind e.  Returns (bytes, bytes of the all-LF rendering of the same lines)"""
+    E = TERM[e]
+    if host == 'items':
+        pre = ['#\\#CIF_2.0', 'data_b', '_a 1']
+        x1, x2, post, padch, padstart = '_b 2', '_c 3', ['_e 4', '_f 5'], 'p', '#'
+    else:
+        pre = ['#\\#CIF_2.0', 'data_b', '_t', ';first']
+        x1, x2, post, padch, padstart = 'mid one', 'mid two', ['last', ';', '_e 4'], 'q', 'z'
+    lines, terms = [], []
+
+    def add(text, term):
+        lines.append(text)
+        terms.append(term)
+    for l in pre:
+        add(l, E)
+
+    def pad_to(target, nxt):
+        # pad lines so that the line `nxt` ends (its terminator starts) exactly at offset target
+        cur = sum(len(a) + len(b) for a, b in zip(lines, terms))
+        room = target - cur - len(nxt)
+        assert room >= 2 * (1 + len(E)), room
+        n1 = min(room // 2, 1990)
+        rest = room
+        chunks = []
+        while rest > 0:
+            take = min(rest, 1990 + len(E))
+            if 0 < rest - take < 1 + len(E):
+                take -= (1 + len(E))
+            chunks.append(take)
+            rest -= take
+        for c in chunks:
+            add(padstart + padch * (c - len(E) - 1), E)
+    pad_to(4096 + d1, x1)
+    add(x1, TERM[t1])
+    pad_to(8192 + d2, x2)
+    add(x2, TERM[t2])
+    for l in post:
+        add(l, E)
+    doc = ''.join(a + b for a, b in zip(lines, terms)).encode()
+    ref = ''.join(a + '\n' for a in lines).encode()
+    assert doc.find((x1 + TERM[t1]).encode()) + len(x1) == 4096 + d1 and doc.find((x2 + TERM[t2]).encode()) + len(x2) == 8192 + d2
+    return doc, ref
+
+
+def work_two(chunk):
+    ex = worker_exec('fast')
+    out, n = [], 0
+    ex.run(['reset', 'cif.new C0'])
+    refs = {}
+    for cell in chunk:
+        doc, ref = two_seam_doc(*cell)
+        key = (cell[0], cell[3], cell[5])
+        try:
+            if key not in refs:
+                refs[key] = norm_result(ex.run(['bytes.set B0 %s' % ref.hex(), 'parse.reuse C0 B0'])[1], 0)
+            got = norm_result(ex.run(['bytes.set B0 %s' % doc.hex(), 'parse.reuse C0 B0'])[1], 0)
+        except Crash as c:
+            out.append(('two seams: %s' % cell[0], '%s/%s@%+d/%s@%+d' % cell[1:], 0, 0, 'crash/hang: %s %s' % (c, c.stderr[-600:])))
+            ex = worker_exec('fast')
+            ex.run(['reset', 'cif.new C0'])
+            continue
+        n += 1
+        if got != refs[key]:
+            what = 'return code' if got[0] != refs[key][0] else ('error (code, line) sequence %r vs %r' % (got[1], refs[key][1]) if got[1] != refs[key][1] else 'content')
+            out.append(('two seams: %s' % cell[0], '%s/%s@%+d/%s@%+d' % cell[1:], 0, 0,
+                        'differs from the all-LF rendering of the same lines in %s\n  got: %s\n  ref: %s' % (what, str(got)[-500:], str(refs[key])[-500:])))
+    return (n, out)
+
+
+def long_token_doc(kind, length, lead, e):
+    """one value token of `length` characters (a token longer than half the scan buffer makes the parser re-base or enlarge it)
+    after `lead` short items; returns (bytes, expected value text)"""
+    E = TERM[e]
+    head = '#\\#CIF_2.0' + E + 'data_b' + E + ''.join('_i%d %d%s' % (i, i, E) for i in range(lead))
+    if kind == 'text':
+        nl = length // 1500
+        linesv = ['L%05d' % i + 'abcdefghij' * 149 + 'xyz'[:1494 - 1490] for i in range(nl)]
+        linesv.append('t' * (length - sum(len(l) + 1 for l in linesv)) if length - sum(len(l) + 1 for l in linesv) > 0 else 'end')
+        val = '\n'.join(linesv)
+        body = '_long' + E + ';' + E.join(linesv) + E + ';' + E
+    elif kind == 'triple':
+        nl = length // 1500
+        linesv = ['T%05d' % i + 'klmnopqrst' * 149 for i in range(nl)] + ['fin']
+        val = '\n'.join(linesv)
+        body = "_long '''" + E.join(linesv) + "'''" + E
+    else:
+        val = 'B' + 'uvw' * (length // 3)
+        body = '_long ' + val + E
+    return (head + body + '_after 1' + E).encode(), val
+
+
+def work_long(chunk):
+    ex = worker_exec('fast')
+    out, n = [], 0
+    for cell in chunk:
+        doc, val = long_token_doc(*cell)
+        try:
+            a = ex.run(['reset', 'bytes.set B0 %s' % doc.hex(), 'parse new:C0 B0', 'item.get H0 %s' % U('_long'), 'blk.get C0 %s H0' % U('b'), 'item.get H0 %s' % U('_long'), 'item.get H0 %s' % U('_after'), 'item.get H0 %s' % U('_i%d' % (cell[2] - 1) if cell[2] else '_after')], timeout=120)
+        except Crash as c:
+            out.append(('long token', '%s/%d/%d/%s' % cell, 0, 0, 'crash/hang: %s %s' % (c, c.stderr[-600:])))
+            ex = worker_exec('fast')
+            continue
+        n += 1
+        got = a[5].get('v') if isinstance(a[5], dict) else None
+        codes = sorted(set(e[0] for e in a[2].get('errs', []))) if isinstance(a[2], dict) else ['?']
+        expect_codes = [108] if cell[0] == 'bare' else []      # a bare token cannot be split over lines: over-length line, content unaffected
+        if not got or got.get('t') != val or a[6].get('rc') != 0 or a[7].get('rc') != 0 or codes != expect_codes:
+            gt = (got or {}).get('t') or ''
+            i = next((j for j in range(min(len(gt), len(val))) if gt[j] != val[j]), min(len(gt), len(val)))
+            out.append(('long token', '%s/%d/%d/%s' % cell, 0, 0,
+                        'a %s token of %d characters after %d items reads back differently (length %d, first difference at %d: %r vs %r), or a neighbour is lost (rc %r %r), or errors %r were reported'
+                        % (cell[0], len(val), cell[2], len(gt), i, gt[i:i + 12], val[i:i + 12], a[6].get('rc'), a[7].get('rc'), codes)))
+    return (n, out)
+
+
 def main():
     tier = sys.argv[1] if len(sys.argv) > 1 else 'quick'
     rep = Report('C08', tier, 'exploration')
@@ -178,9 +298,37 @@ def main():
         for name, style, base, p, msg in out:
             rep.violation({'probe': name, 'style': style, 'kind': msg.split('\n')[0][:70]},
                           {'probe': name, 'style': style, 'base_offset': base, 'padding': p, 'message': msg})
-    return rep.finish({'evaluations': total, 'distinct_nontrivial': len(PROBES) * len(STYLES) * len(bases),
+    # two terminators on two different read seams, in every combination of kind and position relative to its seam
+    two = [(host, e, t1, d1, t2, d2) for host in ('items', 'text') for e in ('LF', 'CR', 'CRLF') for t1 in TERM for d1 in (-2, -1, 0, 1)
+           for t2 in TERM for d2 in (-2, -1, 0, 1)]
+    ntwo = 0
+    for res in pmap(work_two, chunked(two, max(1, len(two) // (NPROC * 2))), ()):
+        if isinstance(res, dict):
+            rep.violation({'kind': 'executor'}, res)
+            continue
+        n, out = res
+        ntwo += n
+        for name, style, base, p, msg in out:
+            rep.violation({'probe': name, 'style': style.split('@')[0], 'kind': msg.split('\n')[0][:70]}, {'probe': name, 'cell': style, 'message': msg})
+    # single tokens around and beyond the sizes at which the scan buffer (131200 units) is re-based or enlarged
+    sizes = [65500, 65599, 65600, 65601, 65700, 131000, 131199, 131200, 131201, 131400, 200000, 262400, 262401, 400000]
+    if tier == 'quick':
+        sizes = [65599, 65601, 131199, 131201, 200000, 262401]
+    longs = [(kind, L, lead, e) for kind in ('text', 'triple', 'bare') for L in sizes for lead in ((0, 40, 3000) if tier == 'quick' else (0, 1, 40, 300, 3000, 20000))
+             for e in (('LF', 'CRLF') if tier == 'quick' else ('LF', 'CR', 'CRLF'))]
+    nlong = 0
+    for res in pmap(work_long, chunked(longs, max(1, len(longs) // (NPROC * 3))), ()):
+        if isinstance(res, dict):
+            rep.violation({'kind': 'executor'}, res)
+            continue
+        n, out = res
+        nlong += n
+        for name, cell, base, p, msg in out:
+            rep.violation({'probe': name, 'style': cell.split('/')[0], 'kind': msg[:60]}, {'probe': name, 'cell': cell, 'message': msg})
+    total += ntwo + nlong
+    return rep.finish({'evaluations': total, 'distinct_nontrivial': len(PROBES) * len(STYLES) * len(bases) + ntwo + nlong, 'two_seam_documents': ntwo, 'long_token_documents': nlong,
                        'rule': '%d probe documents (every token kind, multi-unit constructs, text-field protocols, CIF 1.1 forms and 11 defect probes) x terminator styles %r x base offsets %r x paddings: quick = every padding that puts some byte of the probe on the next 4096-byte seam (+-8), thorough = every padding 0..4111; '
-                               'padding is comment lines of at most 2000 characters rendered in the same style; line numbers are compared after subtracting the known number of added lines. non-trivial = probe x style x base cells' % (len(PROBES), STYLES, bases),
+                               'padding is comment lines of at most 2000 characters rendered in the same style; line numbers are compared after subtracting the known number of added lines. Plus: 864 documents with one terminator (LF / CR / CR LF) starting at offset 4096-2..+1 and one at 8192-2..+1, among items and inside a text field, all other terminators in each style (reference: the all-LF rendering of the same lines); plus single text-field / triple-quoted / bare tokens of 65500..400000 characters after 0..20000 leading items in each style, read back through the API and compared with the text that was generated. non-trivial = probe x style x base cells + those documents' % (len(PROBES), STYLES, bases),
                        'samples': [PROBES[1][2], PROBES[3][2]], 'exhaustive': True},
                       ['reference = the LF-only rendering without padding of the same probe, parsed by the same library'])
 
